@@ -1,13 +1,14 @@
 SPECIFICATION Spec
 CONSTANTS
   MaxPage = 8
-  MaxTx = 3
+  MaxTx = 2
   MaxReaders = 1
   MaxEdits = 1
   SyncBeforeMeta = TRUE
   PublishOnError = TRUE
   Crashes = {"kill"}
   Faults = TRUE
+  MaxFaults = 2
   Damages = FALSE
 INVARIANT TypeOK
 INVARIANT ReaderPinned
